@@ -78,7 +78,58 @@ const POOL: &[&str] = &[
     "(box 1)", "(C07S 1 2)", "(open-input-string \"abc def\")", "(open-output-string)", "void", "(eof-object)",
     "(with-handler (lambda (e) e) (error \"x\"))", "(Some 1)", "(Err 2)", "empty-stream", "(mapping (lambda (x) x))",
     "(make-weak-box (list 1))", "(mutex)", "(instant/now)", "c07-mv", "(string->jsexpr \"{\\\"a\\\": [1, 2.5, null]}\")",
+    // small and mid-size integers: indices and counts a little inside / beyond the collections above
+    "3", "4", "5", "7", "10", "12", "16", "50", "100", "300",
 ];
+
+/// collections built afresh for every call (a temporary is uniquely referenced: the in-place fast paths of the
+/// primitives are reached) with their lengths; the index arguments of the "indexed" sweep (mode 2) are derived from
+/// the length: 0, 1, len-1, len, len+1, 2*len, len+39
+const FRESH: &[(&str, usize)] = &[
+    ("(string-append \"hello\" \" world\")", 11),
+    ("(string-append \"h\u{e9}llo\" \" w\u{f6}rld\")", 11),
+    ("(string-append)", 0),
+    ("(list 1 2 3)", 3),
+    ("(range 0 40)", 40),
+    ("(vector 1 2 3)", 3),
+    ("(make-vector 5 0)", 5),
+    ("(immutable-vector 1 2 3)", 3),
+    ("(apply immutable-vector (range 0 70))", 70),
+    ("(bytes 1 2 3)", 3),
+    ("(hash 'a 1 'b 2)", 2),
+    ("(hashset 1 2 3)", 3),
+];
+
+/// mode 2: `(f <fresh collection> <index derived from its length> ...)`; the tuple index encodes the choice:
+///   arity 1: k = collection;  arity 2: k = (collection*7 + d)*2 + swapped;
+///   arity 3: k = collection*70 + x, x < 49: indices (x/7, x%7); x >= 49: index (x-49)/3 and the value (x-49)%3 of 0 #\a 'sym
+const IDX_HELPER: &str = r#"
+(define (c07-didx d len)
+  (cond [(= d 0) 0] [(= d 1) 1] [(= d 2) (- len 1)] [(= d 3) len] [(= d 4) (+ len 1)] [(= d 5) (* 2 len)] [else (+ len 39)]))
+(define c07-xvals (vector 0 #\a 'sym))
+(define (c07-idx-call f arity k fresh)
+  (cond
+    [(= arity 1) (let ((e (vector-ref fresh k))) (f ((car e))))]
+    [(= arity 2)
+     (let* ((swap (remainder k 2)) (d (remainder (quotient k 2) 7)) (e (vector-ref fresh (quotient k 14))))
+       (if (= swap 0)
+           (f ((car e)) (c07-didx d (cdr e)))
+           (f (c07-didx d (cdr e)) ((car e)))))]
+    [else
+     (let* ((x (remainder k 70)) (e (vector-ref fresh (quotient k 70))))
+       (if (< x 49)
+           (f ((car e)) (c07-didx (quotient x 7) (cdr e)) (c07-didx (remainder x 7) (cdr e)))
+           (f ((car e)) (c07-didx (quotient (- x 49) 3) (cdr e)) (vector-ref c07-xvals (remainder (- x 49) 3)))))]))
+"#;
+
+fn make_fresh_src() -> String {
+    let mut s = String::from("(define (c07-make-fresh) (vector");
+    for (e, n) in FRESH {
+        s.push_str(&format!("\n  (cons (lambda () {}) {})", e, n));
+    }
+    s.push_str("))");
+    s
+}
 
 const PRELUDE: &str = r#"
 (struct C07S (a b))
@@ -510,6 +561,7 @@ fn set_controller(engine: &Engine) {
 const SWEEP: &str = r#"
 (define (c07-sweep f arity mode start end n)
   (define p (c07-make-pool))
+  (define fresh (c07-make-fresh))
   (define (at i) (vector-ref p i))
   (let loop ((k start))
     (when (< k end)
@@ -517,6 +569,7 @@ const SWEEP: &str = r#"
       (with-handler (lambda (e) (c07-err))
         (begin
           (cond
+            [(= mode 2) (c07-idx-call f arity k fresh)]
             [(= arity 0) (f)]
             [(= arity 1) (f (at k))]
             [(= arity 2) (f (at (quotient k n)) (at (remainder k n)))]
@@ -530,7 +583,8 @@ const SWEEP: &str = r#"
 /// compiled differently from top-level ones.  Everything it needs is passed in.
 const SWEEP_MODULE: &str = r#"
 (provide c07-sweep-m)
-(define (c07-sweep-m f arity mode start end n p c07-at c07-ok c07-err)
+;;IDX_HELPER
+(define (c07-sweep-m f arity mode start end n p c07-at c07-ok c07-err fresh)
   (define (at i) (vector-ref p i))
   (let loop ((k start))
     (when (< k end)
@@ -538,6 +592,7 @@ const SWEEP_MODULE: &str = r#"
       (with-handler (lambda (e) (c07-err))
         (begin
           (cond
+            [(= mode 2) (c07-idx-call f arity k fresh)]
             [(= arity 0) (f)]
             [(= arity 1) (f (at k))]
             [(= arity 2) (f (at (quotient k n)) (at (remainder k n)))]
@@ -556,8 +611,8 @@ fn sweep_engine() -> Engine {
     let dir = std::env::var("C07_MODS").unwrap_or_else(|_| "/verif/.build/C07/mods".to_string());
     let _ = std::fs::create_dir_all(&dir);
     let path = format!("{}/c07sweep-{}.scm", dir, std::process::id());
-    let _ = std::fs::write(&path, SWEEP_MODULE.as_bytes());
-    for src in [make_pool_src(), SWEEP.to_string(), format!("(require \"{}\")", path)] {
+    let _ = std::fs::write(&path, SWEEP_MODULE.replace(";;IDX_HELPER", IDX_HELPER).as_bytes());
+    for src in [make_pool_src(), make_fresh_src(), IDX_HELPER.to_string(), SWEEP.to_string(), format!("(require \"{}\")", path)] {
         match eval(&mut e, src) {
             Out::Ok(_) => {}
             Out::Err(x) => {
@@ -611,7 +666,7 @@ fn run_builtins(jobs: Vec<String>, t0: Instant) {
             RUNNING.store(true, Ordering::SeqCst);
             let src = if in_module {
                 format!(
-                    "(c07-sweep-m c07-f {} {} {} {} {} (c07-make-pool) c07-at c07-ok c07-err)",
+                    "(c07-sweep-m c07-f {} {} {} {} {} (c07-make-pool) c07-at c07-ok c07-err (c07-make-fresh))",
                     arity, mode, start, end, POOL.len()
                 )
             } else {
@@ -714,6 +769,12 @@ fn main() {
         "pool" => {
             for (i, p) in POOL.iter().enumerate() {
                 println!("{}\t{}", i, p);
+            }
+            return;
+        }
+        "fresh" => {
+            for (i, (e, n)) in FRESH.iter().enumerate() {
+                println!("{}\t{}\t{}", i, n, e);
             }
             return;
         }
